@@ -140,7 +140,7 @@ impl<L: ChainListener> ChainTracker<L> {
         rest_same(*old(self), *final(self)), final(self).listeners@.len() == old(self).listeners@.len(),
         // every monitor is told about the block and its slot is updated with exactly its own answer
         told_all(old(self).listeners@, final(self).listeners@, block_hash, false, old(self).listeners@.len() as int),   //[C14.tracker.add-updates-each-slot-with-its-monitors-answer]
-//@sub /for \(listener, slot\) in self\.listeners\.values_mut\(\) \{/ => let vx_n = self.listeners.vx_len(); for vx_i in 0..vx_n { let mut vx_slot = self.listeners.vx_take_slot(vx_i);
+//@sub /for (?:\(listener, slot\)|(\w+)) in self\.listeners\.values_mut\(\) \{(?:\s*let \(listener, slot\) = \1;)?/ => let vx_n = self.listeners.vx_len(); for vx_i in 0..vx_n { let mut vx_slot = self.listeners.vx_take_slot(vx_i);
 //@sub /listener\.on_add_block\(/ => self.listeners.vx_listener(vx_i).on_add_block(
 //@sub /listener\.on_add_streamed_block_end\(/ => self.listeners.vx_listener(vx_i).on_add_streamed_block_end(
 //@sub /\bslot\./ => vx_slot.
@@ -183,7 +183,7 @@ impl<L: ChainListener> ChainTracker<L> {
         rest_same(*old(self), *final(self)), final(self).listeners@.len() == old(self).listeners@.len(),
         // every monitor is told about the disconnected block and its slot is wound back with exactly its own answer
         told_all(old(self).listeners@, final(self).listeners@, block_hash, true, old(self).listeners@.len() as int),   //[C14.tracker.remove-winds-each-slot-back-with-its-monitors-answer]
-//@sub /for \(listener, slot\) in self\.listeners\.values_mut\(\) \{/ => let vx_n = self.listeners.vx_len(); for vx_i in 0..vx_n { let mut vx_slot = self.listeners.vx_take_slot(vx_i);
+//@sub /for (?:\(listener, slot\)|(\w+)) in self\.listeners\.values_mut\(\) \{(?:\s*let \(listener, slot\) = \1;)?/ => let vx_n = self.listeners.vx_len(); for vx_i in 0..vx_n { let mut vx_slot = self.listeners.vx_take_slot(vx_i);
 //@sub /listener\.on_remove_block\(/ => self.listeners.vx_listener(vx_i).on_remove_block(
 //@sub /listener\.on_remove_streamed_block_end\(/ => self.listeners.vx_listener(vx_i).on_remove_streamed_block_end(
 //@sub /\bslot\./ => vx_slot.
